@@ -191,6 +191,41 @@ def r17_4(chk, facts):
         else:
             chk.fail('R17.4', site, fn['file'], fn['l'], 'std::array<T,%s> is returned without checking that exactly %s elements were consumed (count test: %s, end_array test: %s)' % (N, N, ok_count, ok_end), None, fn['q'])
 
+def r17_11(chk, facts):
+    """A decoded or converted string keeps its length."""
+    chk.rule('R17.11', 'string hand-over: in the typed conversion headers (include/jsoncons/reflect) no string value is handed to a constructor, '
+                       'result or call through `x.c_str()` alone - a NUL-terminated pointer ends the value at its first U+0000, which the '
+                       'basic_json route (pointer and length) keeps; the rule must find its positive example in /verif/drivers on every run', floor=1)
+    def sites(fn):
+        out = []
+        for y in A.walk_no_lambda(fn['body']):
+            if y.get('k') not in ('CXXConstructExpr', 'CXXTemporaryObjectExpr', 'InitListExpr', 'CallExpr', 'CXXMemberCallExpr', 'CXXFunctionalCastExpr', 'CXXUnresolvedConstructExpr'): continue
+            args = y.get('args') or y.get('c') or ([y['sub']] if y.get('sub') is not None else [])
+            for a in args:
+                sa = A.strip(a, casts=True)
+                if sa is not None and A.is_call(sa) and A.callee_name(sa) == 'c_str':
+                    o = A.ref_name(sa.get('obj'))
+                    # the same object's size()/length() among the sibling arguments: pointer and length travel together
+                    if any(A.is_call(z) and A.callee_name(z) in ('size', 'length') and A.ref_name(z.get('obj')) == o for b in args if b is not a for z in A.walk(b)): continue
+                    out.append((y, sa, o))
+        return out
+    pos = 0; n = 0; seen = set()
+    for fn in facts.functions:
+        if fn.get('body') is None or fn.get('dep'): continue
+        in_lib = fn['file'].startswith('include/jsoncons/reflect/')
+        in_drv = fn['file'].startswith('drivers/reflect.cpp') and fn['n'] == 'cstr_truncation_witness'
+        if not (in_lib or in_drv): continue
+        for y, sa, o in sites(fn):
+            if (fn['file'], sa.get('l'), sa.get('col')) in seen: continue
+            seen.add((fn['file'], sa.get('l'), sa.get('col')))
+            if in_drv: pos += 1; continue
+            n += 1
+            chk.analysed(fn)
+            chk.fail('R17.11', U.site(fn, 'c_str hand-over@%d' % (sa.get('l', 0) - fn['l'])), fn['file'], sa.get('l'), '%s hands `%s.c_str()` on without its length: a value that contains U+0000 is cut off there, while the '
+                     'basic_json route keeps it (the two routes then disagree)' % (A.strip_targs(fn.get('cls') or fn['n']).split('::')[-1] + '::' + fn['n'], o), None, fn['q'])
+    chk.require(pos >= 1, 'R17.11: the positive example jcsa_reflect::cstr_truncation_witness in drivers/reflect.cpp was not recognised')
+    if not n: chk.ok('R17.11', 'include/jsoncons/reflect no NUL-terminated hand-over', {'positive_example_found': pos, 'sites_in_library': 0})
+
 def r17_2(chk, facts):
     """Mandatory members: in the expansions of the N_* macro families the member with 0-based position i is mandatory iff i < N, in every
     generated function of both routes (json_traits is/try_as/to_json and the streaming encode/decode traits)."""
@@ -247,6 +282,26 @@ def r17_2(chk, facts):
                 else: chk.fail('R17.2', site, fn['file'], x.get('l'), '%s<%s>::%s decides whether member `%s` is mandatory with `%s num_mandatory_params`; a member is mandatory iff its position < N' % (
                     cls, wit, fn['n'], A.text(l), op), {'macro': x.get('m')}, fn['q'])
     chk.require(n >= 60, 'R17.2: only %d mandatory-member tests found in the macro expansions' % n)
+    # the test distinguishes something: a member that is optional is not handled by the statements that handle a mandatory one
+    m2 = 0
+    for fn in facts.functions:
+        if fn.get('body') is None or fn.get('dep') or not fn['file'].startswith('drivers/reflect.cpp'): continue
+        k = 0
+        for x in A.walk_no_lambda(fn['body']):
+            if x.get('k') != 'IfStmt' or x.get('then') is None or x.get('else') is None: continue
+            if not any(y.get('k') == 'DeclRefExpr' and y.get('n') == 'num_mandatory_params' for y in A.walk(x.get('cond'))): continue
+            if (A.strip(x['else']) or {}).get('k') == 'IfStmt': continue
+            k += 1; m2 += 1
+            who = (fn.get('cls') or fn['q'])
+            wit = who[who.find('jcsa_reflect::'):].split('>')[0].split(',')[0] if 'jcsa_reflect::' in who else who[-30:]
+            site = 'drivers/reflect.cpp %s<%s>::%s mandatory/optional branches#%d' % (A.strip_targs(fn.get('cls') or fn['q']).split('::')[-1], wit, fn['n'], k)
+            def callees(b): return sorted(set(A.callee_name(c) for c in A.calls_in(b) if A.callee_name(c) and not A.callee_name(c).startswith('operator')))
+            def shape(b): return tuple((y.get('k'), y.get('n') or y.get('op') or y.get('oop') or (A.callee_name(y) if y.get('k') in A.CALLS else None) or y.get('v')) for y in A.walk(b))
+            if shape(x['then']) != shape(x['else']): chk.ok('R17.2', site, None)
+            else:
+                chk.fail('R17.2', site, fn['file'], x.get('l'), '%s<%s>::%s: both outcomes of the mandatory-member test at line %s call %s: an optional member is treated exactly like a mandatory one '
+                         '(an absent optional is then written, or demanded)' % (A.strip_targs(fn.get('cls') or fn['q']).split('::')[-1], wit, fn['n'], x.get('l'), callees(x['then'])), {'macro': x.get('m')}, fn['q'])
+    chk.require(m2 >= 10, 'R17.2: only %d two-way mandatory/optional branches found in the macro expansions' % m2)
 
 def r17_5(chk, facts):
     """The streaming encode route opens every container with its length: MessagePack has no indefinite-length containers."""
@@ -465,6 +520,7 @@ def run(chk, tier, only_rule=None):
     r17_3(chk, facts)
     r17_4(chk, facts)
     r17_10(chk, facts)
+    r17_11(chk, facts)
     # the decoders read keys and strings as views of the current event
     from . import c03
     c03.r03_9(chk, tier)
